@@ -365,6 +365,38 @@ class Hist(Scenario):
             return True
         return self.op_partial_commit()
 
+    def op_commit_index_then_deleted(self):
+        """The index and the work tree differ by a pure deletion: a file is staged as a whole, then a person deletes, in the work tree
+        only, a line that HEAD already has (mostly one directly next to the lines the index adds; not restaged); the commit is made
+        from the index (the repaired finding D75 is the case `deleted above`; `directly below` is the boundary of the same rule)."""
+        rng = self.rng
+        cands = [f for f in self.files if self.w.read_bytes(f) is not None]
+        rng.shuffle(cands)
+        for f in cands:
+            head = self.head()
+            hl = (self.show_lines(head, f) if head else None) or []
+            hk = set(key(l) for l in hl)
+            cur = self.read(f)
+            new = [i for i, l in enumerate(cur) if key(l) and key(l) not in hk]
+            old = [i for i, l in enumerate(cur) if key(l) in hk and not self.ledger.is_decoy(l) and self.ledger.expected(l) == "human"]
+            if not new or len(old) < 2 or not self.style(f).final_nl:
+                continue
+            near = [i for i in old if (i - 1) in new or (i + 1) in new]
+            i = rng.choice(near) if near and rng.random() < 0.7 else rng.choice(old)
+            if i == len(cur) - 1:
+                continue
+            self.g("add", "--", f)
+            if f in self.pending_initial_files() and not self.profile["human_edit_on_pending_unreported"]:
+                self.w.human_ckpt([f])
+            del cur[i]
+            self.write(f, cur)
+            self.log.append(["edit", f, "human", "delete-in-worktree@%d (staged version keeps the line)" % i])
+            self.stats["edits"] += 1
+            self.g("commit", "-q", "-m", "index, then a line deleted in the work tree")
+            self.ops.append("commit:index-then-deleted")
+            return True
+        return self.op_partial_commit()
+
     def op_commit_paths(self):
         """git commit -- <paths> / commit -a variants."""
         r = self.rng.random()
